@@ -139,6 +139,15 @@ def W(t, mn=1, mx=1):
     return ('w', t, mn, mx)
 
 
+def replace_wildcards(shape, kind):
+    """the same shape with every wildcard leaf replaced by a wildcard of the given kind"""
+    if shape[0] == 'w':
+        return ('w', kind, shape[2], shape[3])
+    if shape[0] == 'e':
+        return shape
+    return (shape[0], [replace_wildcards(c, kind) for c in shape[1]], shape[2], shape[3])
+
+
 def S(*ch, mn=1, mx=1):
     return ('s', list(ch), mn, mx)
 
